@@ -36,7 +36,14 @@ fn main() {
     }
     let thorough = tier == "thorough";
     // panics are caught per call by the suites; keep the default hook quiet
-    std::panic::set_hook(Box::new(|_| {}));
+    std::panic::set_hook(Box::new(|info| {
+        // panics of the code under test are caught per call and reported as oracle failures;
+        // a panic of the harness itself must be visible
+        let loc = info.location().map(|l| l.file().to_string()).unwrap_or_default();
+        if loc.contains("harness/src") || loc.starts_with("src/") {
+            eprintln!("harness panic: {}", info);
+        }
+    }));
     let mut rec = Rec::new(&out);
     let mut rng = Rng::new(seed);
     match suite.as_str() {
@@ -44,6 +51,15 @@ fn main() {
         "headers" => suites::headers::run(&mut rec, &mut rng, thorough),
         "response" => suites::response::run(&mut rec, &mut rng, thorough),
         "router" => suites::router::run(&mut rec, &mut rng, thorough),
+        "c01" => suites::connsuites::c01(&mut rec, &mut rng, thorough),
+        "c02" => suites::connsuites::c02(&mut rec, &mut rng, thorough),
+        "c03" => suites::connsuites::c03(&mut rec, &mut rng, thorough),
+        "c04" => suites::connsuites::c04(&mut rec, &mut rng, thorough),
+        "c06" => suites::connsuites::c06(&mut rec, &mut rng, thorough),
+        "c11" => suites::connsuites::c11(&mut rec, &mut rng, thorough),
+        "c12" => suites::connsuites::c12(&mut rec, &mut rng, thorough),
+        "c13" => suites::connsuites::c13(&mut rec, &mut rng, thorough),
+        "c14" => suites::connsuites::c14(&mut rec, &mut rng, thorough),
         other => {
             eprintln!("unknown suite {}", other);
             std::process::exit(2);
